@@ -196,11 +196,12 @@ def harnesses(tier):
 ORACLES = [
     {'name': 'legacy CSV rule files (regex metacharacters, quotes, backslashes, every modifier kind, tags, odd names) versus their migrated merchants.rules on the real loaders and matcher, '
              'probe transactions at all modifier boundaries; string-literal decoding of regex() over an escape alphabet', 'script': 'C14.py',
-     'bound': '28 CSV rows alone + 13 multi-row files x 26 descriptions x 16 amounts x 7 dates; all strings of length <= 3 over an 8-symbol escape alphabet'},
+     'bound': '34 CSV rows alone + 15 multi-row files x 30 descriptions x 18 amounts x 8 dates, each file also through the real migration entry point; all strings of length <= 3 over an 8-symbol escape alphabet'},
 ]
 TRUSTED_BASE = ['pyvc symbolic executor', 'z3 5.1.0 / cvc5 1.0.3', 'CPython ast.parse for the emitted text',
                 'the meaning function of the emitted fragment (props/C14.py: comparison, and, abs, ISO date strings, month) is the documented one (C04)',
                 'float repr round trip: a number written by the converter is read back as the same number; dates are compared by ordinal']
 ASSUMPTIONS = ['A1 reals', 'regular expressions opaque (A6): regex("P") matches what re.search(P, upper(description), IGNORECASE) matched']
 EXPLANATION = ('Per modifier kind and for shapes of several modifiers: the real converter is run on sentinel values, its output is given the documented meaning with sentinels replaced by symbols, '
-               'the real CSV evaluators are executed symbolically, and the two meanings are proved equal for all amounts and dates (z3). Bounded stand-in (labelled): CSV files versus migrated files on the real code.')
+               'the real CSV evaluators are executed symbolically, and the two meanings are proved equal for all amounts and dates (z3); csv_to_merchants_content writes one block per CSV row in order (loop invariant); '
+               'the migration entry point converts exactly what it loaded. Bounded stand-in (labelled): CSV files versus migrated files on the real code.')
